@@ -1426,8 +1426,8 @@ void dev_destroy(Device * dev)
 {
     int i;
 
-    if (dev->connect_state == DEV_CONNECTED)
-        dev->disconnect(dev);
+    if (dev->connect_state != DEV_NOT_CONNECTED)
+        dev->disconnect(dev);   /* N.B. a connect may still be in progress */
 
     xfree(dev->name);
     xfree(dev->specname);
